@@ -177,6 +177,8 @@ class C18Session(Session):
                 out[k] = rot_from(v)
             elif k == "parent":
                 out[k] = self.world[v]
+            elif k in ("children", "sources", "sensors", "collections"):
+                out[k] = [self.world[j] for j in v]
             else:
                 out[k] = v
         return out
@@ -225,6 +227,10 @@ class C18Session(Session):
                     items = list(kw.items())
                     items.insert(min(var.get("pos", 0), len(items)), (var["key"], var["value"]))
                     kw = dict(items)
+                if var["kind"] == "tree_then_bad":
+                    # copy(children=[x], ..., <rejected keyword>): x must not have left its collection
+                    kw = dict([(var["tree_key"], var["members"])] + list(kw.items()) + [(var["key"], var["value"])])
+                    self.probe("failing_copy_with_tree_keyword")
                 out, new = self._do_copy(obj, kw, warn_error=var["kind"] == "warn_error")
                 if out == "ok" and new is not None and new._parent is not None:
                     if "parent" not in kw:
@@ -781,6 +787,21 @@ class Sim:
             vs.append({"kind": "warn_error"})
             if len(vs) > 8:
                 vs = rng.sample(vs, 8)
+            if hasattr(obj, "_children"):
+                # members of the original world (children of obj itself or of another collection, or free) given
+                # as the children of the copy, followed by a keyword that is rejected
+                sub_cols = {id(x) for x in subtree(obj) if hasattr(x, "_children")}
+                cand = [i for i in range(len(w.objs)) if sess.group[i] == sess.group[o] and w.objs[i] is not obj
+                        and id(w.objs[i]) not in sub_cols and not (hasattr(w.objs[i], "_children")
+                                                                    and obj in subtree(w.objs[i]))]
+                if cand and rng.random() < 0.5:
+                    j = rng.choice(cand)
+                    tname = type(w.objs[j]).__name__
+                    typed = "sensors" if tname == "Sensor" else "collections" if tname == "Collection" else "sources"
+                    bad = rng.choice([("position", [1.0, 2.0], "bad_position"), ("style_opacity", 7, "bad_opacity"),
+                                      ("style_bogus", 1, "unknown_style_key")])
+                    vs.append({"kind": "tree_then_bad", "tree_key": rng.choice(["children", typed]), "members": [j],
+                               "key": bad[0], "value": bad[1], "name": bad[2]})
             op["fail_variants"] = vs
         return op
 
